@@ -130,6 +130,24 @@ class Models:
             return z3.ToReal(fl) if name == 'floor' else z3.ToReal(z3.If(z3.ToReal(fl) == x, fl, fl + 1))
         if name in ('abs', 'fabs'):
             x = A(0); return z3.If(x >= 0, x, -x)
+        if name == 'tie':
+            # std::tie(a, b, ...): a tuple of references; its assignment from a pair / tuple stores component-wise
+            return Rec('tie', {str(i): e.lv(a_, st, fr) for i, a_ in enumerate(args)})
+        if name in ('copysign', 'copysignf'):
+            x = real(A(0)); y = real(A(1))
+            self.used('std::copysign: |x| with the sign of y; a negative zero as second argument is not modelled (reals have one zero)')
+            ax = z3.If(x >= 0, x, -x)
+            return z3.If(y >= 0, ax, -ax)
+        if name in ('fmin', 'fmax'):
+            a = real(A(0)); b = real(A(1))
+            return z3.If(b < a, b, a) if name == 'fmin' else z3.If(a < b, b, a)
+        if name in ('hypot',):
+            a = real(A(0)); b = real(A(1))
+            return self.sqrt(st, a * a + b * b)
+        if name in ('trunc', 'round'):
+            x = real(A(0))
+            if name == 'trunc': return z3.ToReal(z3.If(x >= 0, z3.ToInt(x), -z3.ToInt(-x)))
+            return z3.ToReal(z3.If(x >= 0, z3.ToInt(x + z3.RealVal('1/2')), -z3.ToInt(-x + z3.RealVal('1/2'))))      # halfway cases away from zero
         if name in ('max', 'lowest', 'min', 'infinity') and len(args) == 0:
             import fractions, sys as _sys
             t = TY.of_node(n)
@@ -356,6 +374,10 @@ class Models:
         if t.kind == 'lambda':
             return e.rv(args[0], st, fr)
         if t.kind == 'iter':
+            if not args:
+                # a default-constructed (singular) iterator: assigned before it is used; modelled as an end iterator of no container
+                if t.args and t.args[0].kind == 'set': return Rec('setiter', {'ref': z3.IntVal(0), 'key': z3.IntVal(-1), 'end': z3.BoolVal(True)})
+                raise Unsupported('default-constructed iterator of %r at %s' % (t, e.where(n, fr)))
             return e.rv(args[0], st, fr)
         raise Unsupported('construction of %r at %s' % (t, e.where(n, fr)))
 
@@ -1190,6 +1212,15 @@ class Models:
             return self.subscript(st, base, idx, n, fr)
         if name == 'operator=':
             lv = e.ev(args[0], st, fr)
+            if isinstance(lv, Rec) and lv.t == 'tie':
+                v = e.rv(args[1], st, fr)
+                if not isinstance(v, Rec): raise Unsupported('assignment to std::tie from %r at %s' % (v, e.where(n, fr)))
+                comps = [v.f['first'], v.f['second']] if 'first' in v.f else [v.f[str(i)] for i in range(len(v.f))]
+                if len(comps) != len(lv.f): raise Unsupported('std::tie arity at %s' % e.where(n, fr))
+                for i, c_ in enumerate(comps):
+                    if isinstance(c_, LVS) and not isinstance(c_, ObjLV): c_ = e.load(st, c_)
+                    e.store(st, lv.f[str(i)], c_)
+                return lv
             if isinstance(lv, ObjLV):
                 src = e.ev(args[1], st, fr)
                 e.assign_object(st, lv, src, fr); return lv
